@@ -65,8 +65,14 @@ def gen_tree(rng, size, base, patt=None):
     listed = [n for n in names if not n.startswith(".") and not re.search(patt, base_sel + "/" + n)
               and "\n" not in n]
     link_hidden = set()      # hidden by a link block: later blocks may name the same path again, it stays hidden
+    real_hidden, real_link_hidden = hidden, link_hidden
     for n in names:
         if n in (".Links", ".names", ".x"):
+            # a link file the configured pattern ignores is never read: its blocks hide nothing
+            if re.search(patt, base_sel + "/" + n):
+                hidden, link_hidden = set(), set()
+            else:
+                hidden, link_hidden = real_hidden, real_link_hidden
             blocks = []
             for i in range(rng.randrange(0, 3)):
                 blocks.append(link_block(rng, rng.randrange(100)))
@@ -83,6 +89,7 @@ def gen_tree(rng, size, base, patt=None):
             rng.shuffle(blocks)
             text = "\n".join(blocks) if blocks else rng.choice(["", "# just a comment\n", "free text\n"])
             tree.append({"path": tp(pre + n), "data": td(text)})
+    hidden, link_hidden = real_hidden, real_link_hidden
     if ".cap" in names:
         # a file hidden by its .cap file stays hidden even when link blocks (above) name it too
         for tgt in rng.sample(listed, min(len(listed), 2)):
@@ -501,6 +508,11 @@ def run(tier):
         "takes a path without stat result or a special file (true of every list shipped in conf/pygopherd.conf)",
         "for plain dir.DirHandler dot files are governed by the ignore pattern only (the Bucktooth sample pattern adds "
         "`/\\.`); the dot rule of the property is UMNDirHandler's",
+        "'hidden by metadata' = dropped by .cap/<name> (Type=X or -) or removed by a ./name hide block of a link file; it "
+        "stays hidden whatever other blocks name the same path (D21, D25).  A TITLE block Path=./x for a file that is not "
+        "listed for another reason (matched by the ignore pattern, a dot-file, missing) still adds a link entry: that is "
+        "the administrator's explicit link, not the directory entry, and is not counted as 'something else from the "
+        "directory'; the generators therefore only aim ./ blocks at visible or metadata-hidden files",
         "regex subset of the ignore pattern: literal, escaped punctuation, `.`, `|`, trailing `$`; anything else makes "
         "the translator unit Ignore unavailable and K decides",
     ]
